@@ -1733,7 +1733,10 @@ impl<'input, T: Input> Scanner<'input, T> {
             // If we had reached an eof but the last character wasn't an end-of-line, check if the
             // last line was indented at least as the rest of the scalar, then we need to consider
             // there is a newline.
-            if self.input.next_is_z() && self.mark.col >= indent.max(1) {
+            // This only concerns a last content line: if a line break was read after it
+            // (`leading_break`), what follows is an empty line made of spaces only.
+            if leading_break.is_empty() && self.input.next_is_z() && self.mark.col >= indent.max(1)
+            {
                 string.push('\n');
             }
         }
